@@ -234,9 +234,12 @@ pub fn run(ctx: &mut Ctx) {
                     }
                 }
                 if let (Some(a), Some(b)) = (ids.iter().find(|i| **i >= range.0 && **i <= range.1), ids.iter().rev().find(|i| **i >= range.0 && **i <= range.1)) {
-                    mon.core.lock().expect("lock").fail_next = 1;
+                    {
+                        let mut c = mon.core.lock().expect("lock");
+                        c.fail_once_at = Some(c.nops + (i / 4) % 2);
+                    }
                     let _ = block_on(pm.get_tile_by_id_async(*a));
-                    mon.core.lock().expect("lock").fail_next = 0;
+                    mon.core.lock().expect("lock").fail_once_at = None;
                     let from = mon.log_len();
                     if let Ok(Some(_)) = block_on(pm.get_tile_by_id_async(*b)) {
                         let (off, len) = c.truth[b];
@@ -276,9 +279,13 @@ pub fn run(ctx: &mut Ctx) {
                 }
                 // a lookup that fails (one transient stream error), then an ordinary one: it must again read exactly its range
                 if let (Some(a), Some(b)) = (ids.iter().find(|i| **i >= range.0 && **i <= range.1), ids.iter().rev().find(|i| **i >= range.0 && **i <= range.1)) {
-                    mon.core.lock().expect("lock").fail_next = 1;
+                    // the failure hits the lookup's first stream operation (the seek) or its second one (the read)
+                    {
+                        let mut c = mon.core.lock().expect("lock");
+                        c.fail_once_at = Some(c.nops + (i / 2) % 2);
+                    }
                     let _ = pm.get_tile_by_id(*a);
-                    mon.core.lock().expect("lock").fail_next = 0;
+                    mon.core.lock().expect("lock").fail_once_at = None;
                     let from = mon.log_len();
                     if let Ok(Some(_)) = pm.get_tile_by_id(*b) {
                         let (off, len) = c.truth[b];
